@@ -60,6 +60,7 @@ func coreC19(tier string) []RunSpec {
 	for k := 0; k < 2; k++ {
 		out = append(out, RunSpec{Profile: "core:restore-at-batch-boundary", Params: map[string]int{"scenario": 9, "fee": 0, "k": k}})
 	}
+	out = append(out, RunSpec{Profile: "core:live-proofs-behind-300-spent-outputs", Params: map[string]int{"scenario": 10, "fee": 0}})
 	// known finding: SIG_ALL token from an untrusted mint, swap-to-trusted fails, received again
 	out = append(out, RunSpec{Profile: "core:sigall-crossmint-again", Params: map[string]int{"scenario": 3, "mints": 2, "fee": 0, "fee2": 0}})
 	return out
@@ -198,6 +199,47 @@ func runC19(rc *RunCtx) {
 		return
 	case 9:
 		c19ExactBatch(ww, uint32(100*(1+rc.P("k", 0))))
+		return
+	case 10:
+		// more than 300 consecutive outputs of the seed are SPENT (everything was sent on and redeemed),
+		// the live proofs sit behind them: the restore scan must not take a run of spent outputs for the end
+		a, b := ww.Wallets[0], ww.Wallets[1]
+		mint := mintNameOfURL(ww.node(a).Mint)
+		ww.step = 0
+		ww.rc.S.MaxSteps += 90000
+		for i := 0; i < 52; i++ {
+			ww.step++
+			ww.mintInto(a, 63) // 6 outputs each
+		}
+		bal := ww.balanceAt(a, mint)
+		var ps cashu.Proofs
+		ww.op("w.send fees=false")
+		ww.W.WalletOp(a, ww.name("sendall."+a), nil, func(wl *wallet.Wallet) { ps, _ = wl.Send(bal, ww.mintURL(mint), false) })
+		if len(ps) == 0 {
+			return
+		}
+		str, _ := MakeToken(ps, ww.mintURL(mint), false, false)
+		ww.Tokens = append(ww.Tokens, &OutToken{Str: str, Proofs: ps, From: a, Mint: mint, Amount: ps.Amount(), Kind: "plain"})
+		ww.op("w.receive plain sigall=false crossmint=false")
+		ww.W.WalletOp(b, ww.name("recvall."+b), nil, func(wl *wallet.Wallet) {
+			if tk, e := cashu.DecodeToken(str); e == nil {
+				if _, e := wl.Receive(tk, false); e == nil {
+					ww.Tokens[len(ww.Tokens)-1].Claimed = true
+				}
+			}
+		})
+		ww.step++
+		ww.mintInto(a, 21)
+		ww.step++
+		ww.mintInto(a, 7)
+		checked = ww.CheckCounters(checked)
+		ww.Settle()
+		ww.restoreWallet(a, true, "live proofs behind more than 300 spent outputs")
+		ww.step++
+		ww.mintInto(ww.Wallets[0], 5)
+		ww.CheckCounters(checked)
+		rc.S.Probe("c19_live_behind_300_spent")
+		rc.Nontrivial = true
 		return
 	case 8:
 		// a token names the wallet's own mint by another spelling of its URL (trailing slash, upper-case
